@@ -1,23 +1,44 @@
 """C07 - option and argument flags are validated and normalised consistently."""
 import itertools
+import sys
 from hutil import S, unS, err, enc_val, canon_floats
+
+# Cases, wires and observations carry integers of more than 4300 digits (the inputs that probe CPython's int <-> str limit):
+# the harness's own serialisation (json, str(int), int(text)) must not trip over that limit, so it is lifted for the
+# harness - and put back to the interpreter's default around every call into clikit (run_impl), which is what the model
+# describes (Conv.MAX_STR_DIGITS).
+INT_MAX_STR_DIGITS = 4300
+sys.set_int_max_str_digits(0)
 
 MODEL = "C07"
 PROP_FILES = ["Props/C07.v"]
-RULE = ("exhaustive: all 2^13 option flag words x short name {none,'f'} x default {none, scalar, list}; all 2^11 argument flag "
-        "words x 3 defaults; all names of length <= 4 over {a,Z,7,-,_,space,newline,e-acute} (+ '--'/'-' prefixed ones) as long "
-        "name, short name, alias and argument name; conversion of ~230 boundary texts/values and seeded random ints/floats for "
-        "4 types x nullable; non-trivial = distinct flag word / name / value text; distinct by case")
-TRUSTED = ["float(text) values and float text round trip are CPython's (model carries floats as text); int()/float() grammars modelled for ASCII digits",
+RULE = ("exhaustive: all 2^13 option flag words x short name {none,'f'} x 8 defaults (none, 'x', '', 0, [], ['x'], ('x',), False: "
+        "falsy values and a tuple included, compared by VALUE); all 2^11 argument flag words x the 8 defaults; all names of "
+        "length <= 4 over {a,Z,7,-,_,space,newline,e-acute} (+ '--'/'-' prefixed ones) and all names of length <= 2 over all 95 "
+        "printable ASCII characters, newline, tab and 8 non-ASCII letters / digits / marks (+ '--' prefixed) as long name, short "
+        "name, alias and argument name; conversion of ~300 boundary texts/values (non-ASCII digits, 0x10, Yes/ON, 10**400, "
+        "2**1024-2**970, 4300/4301/5000-digit ints and digit strings, float inputs) and seeded random ints/floats for 4 types x "
+        "nullable; value -> text -> value round trips of booleans, ints (up to 4300 digits and beyond) and floats; the Unicode "
+        "decimal-digit table int() uses, over 0..0x1FFFF (quick) / 0x10FFFF (thorough); non-trivial = distinct flag word / name / "
+        "value text; distinct by case")
+TRUSTED = ["float(text) values and float text round trip are CPython's (model carries floats as text); the int()/float() grammars are "
+           "modelled incl. non-ASCII decimal digits (table compared with CPython over all code points) and the 4300-digit limit",
            "harness/translate.py (fail-closed translator of a pure subset of Python, driven by ast; its reading of that subset and the "
            "declared int/bool types are trusted) regenerates coq/theories/Generated/GenFlags.v from the flag constants and "
            "_validate_flags / _add_default_flags of AbstractOption, Option and Argument in the source tree on every run (bin/setup), "
            "and the theorems opt_validate_matches_source, arg_validate_matches_source, abs_validate_matches_source, "
            "opt_defaults_matches_source, arg_defaults_matches_source, abs_defaults_matches_source re-check the hand model "
            "(Model/Flags.v) against them for all integers: a second tie of model and code next to the differential run"]
-ASSUMPTIONS = ["names are str/None/other; aliases are str; conversion inputs are None/bool/int/str"]
+ASSUMPTIONS = ["names are str/None/other; aliases are str; conversion inputs are None/bool/int/str/float (int(finite float), a "
+               "truncation, is not generated)",
+               "CPython's default sys.get_int_max_str_digits() = 4300: str(int) / int(str) beyond 4300 digits raise ValueError in the "
+               "interpreter, so the int round trip is demanded for integers of at most 4300 digits (and ValueError beyond)"]
 
-ALPHA = ["a", "Z", "7", "-", "_", " ", "\n", "é"]
+ALPHA = ["a", "Z", "7", "-", "_", " ", "\n", "\u00e9"]
+# every printable ASCII character, two controls, and non-ASCII letters / digits / marks that str.isalpha() / isalnum() / \w
+# would let through: e-acute, sharp s, Greek capital omega, titlecase DZ-caron, ARABIC-INDIC digit 3, superscript 2,
+# fullwidth A, combining acute
+WIDE = [chr(x) for x in range(32, 127)] + ["\n", "\t", "\u00e9", "\u00df", "\u03a9", "\u01c5", "\u0663", "\u00b2", "\uff21", "\u0301"]
 
 
 def names():
@@ -37,20 +58,59 @@ BOUNDARY = ["", " ", "1", " 1", "1 ", "\t1\n", "+1", "-1", "--1", "+-1", "1_0", 
             "None", "none", "true", "True", "TRUE", "false", "False", "yes", "no", "on", "off", "0", "2", "y", "n", "1.0", "0.0",
             "12345678901234567890123", "-98765432109876543210", "1 2", "1 2", " 1 ", " 1", "1\x1c", "\x1f1",
             "1\x00", "abc", "a1", "1a", "0.1", "3.14", "1e400", "-1e400", "1e-400", "0e0", "00.5", "5.", "1_000_000", "1__000",
-            "+", "-", "+_1", "1+", "1-", "1.5.2", "1e5e5", "1,5", "1\n", "\n", "tRuE", " true", "0 ", "on ", "nul", "nulll"]
+            "+", "-", "+_1", "1+", "1-", "1.5.2", "1e5e5", "1,5", "1\n", "\n", "tRuE", " true", "0 ", "on ", "nul", "nulll",
+            "0x10", "0X10", "0b10", "Yes", "YES", "ON", "On", "Off", "OFF", "No", "NO", "T", "t", "00", "01", "-0.0", "1e308", "1e309",
+            # non-ASCII decimal digits (int() and float() read them), mixed with ASCII, with underscores, as exponent;
+            # non-ASCII characters that are not digits
+            "\uff11", "\u0663", "\u0661\u0662", "1\uff12", "\u0967_\u0968", "\u0661\u0662.\u0665", "\u0661e\u0662", "-\u0663",
+            "+\uff11\uff10", "\u3000\u0661", "\u0661\u3000", "\U0001d7d8\U0001d7d9", "\u0663_", "_\u0663", "\u0663__\u0663",
+            "\uff49\uff4e\uff46", "\u22121", "\u00b2", "\u00bd", "\u2460", "\u5341", "1\u00e9", "\u00e91", "\u0661\x1c",
+            # CPython's 4300-digit limit for int <-> str (leading zeros count, underscores do not, float() has none)
+            "1" * 4300, "1" * 4301, " " + "9" * 4300 + " ", "0" * 4301, "1_" * 2150 + "1", "1" * 5000, "1" * 4301 + "x",
+            "1" + "0" * 400, "-1" + "0" * 400, "\u0661" * 4301, "1" * 4301 + ".5", "1e" + "1" * 4301]
+# (the model's driver reads and prints integers of thousands of digits in quadratic time: ~2 s per case, so the quick
+# tier takes a handful of them and the thorough tier the rest)
+BOUNDARY_THOROUGH = ["-" + "1" * 4300, "+" + "1" * 4301, "0" * 5000 + "1", "1_" * 2149 + "1", "-" + "\uff11" * 4300]
+INT_VALUES = [10 ** 400, -10 ** 400, 10 ** 308, 2 ** 1024 - 2 ** 970 - 1, 2 ** 1024 - 2 ** 970, -(2 ** 1024 - 2 ** 970),
+              2 ** 1024 - 2 ** 970 + 1, 2 ** 1024, 10 ** 4300 - 1, 10 ** 4300, -10 ** 4300, 10 ** 5000]
+INT_VALUES_THOROUGH = [10 ** 4299, -(10 ** 4300 - 1), 7 ** 6000, 3 ** 9000, -(10 ** 4301)]
+
+
+def _huge(v):
+    return (isinstance(v, int) and abs(v) >= 10 ** 1000) or (isinstance(v, str) and len(v) > 1000)
+FLOAT_VALUES = [0.0, -0.0, 1.5, -2.25, 0.1, 1e16, 1e-05, 1e22, 1e23, 123456789.125, 5e-324, 2.2250738585072014e-308,
+                1.7976931348623157e+308, float("inf"), float("-inf"), float("nan"), 1 / 3, 2 ** 53 + 0.0, 1e300 * 10]
+DEFAULTS = [None, "x", "", 0, [], ["x"], ("x",), False]
+
+
+def enc_d(v):
+    """a default value on the wire: hutil.enc_val, plus tuples (neither None nor a list) as (8 items)"""
+    if isinstance(v, tuple):
+        return [8, [enc_val(x) for x in v]]
+    return enc_val(v)
+
+
+def wide_names():
+    out = [""]
+    for a in WIDE:
+        out.append(a)
+        for b in WIDE:
+            out.append(a + b)
+    return out
 
 
 def gen(rng, tier, info):
     cases = []
+    nd = len(DEFAULTS)
     for f in range(2 ** 13):
         for sn in (None, "f"):
-            for d in (0, 1, 2):
+            for d in range(nd):
                 cases.append({"k": 0, "long": [2, "foo"], "short": [0] if sn is None else [2, sn], "f": f, "d": d})
     for f in (-1, -5, 2 ** 20 + 8, 2 ** 40 + 32 + 1, -2 ** 13):
         for sn in (None, "f"):
             cases.append({"k": 0, "long": [2, "foo"], "short": [0] if sn is None else [2, sn], "f": f, "d": 0})
     for f in range(2 ** 11):
-        for d in (0, 1, 2):
+        for d in range(nd):
             cases.append({"k": 1, "name": [2, "arg"], "f": f, "d": d})
     nm = names()
     for n in nm:
@@ -60,6 +120,14 @@ def gen(rng, tier, info):
         cases.append({"k": 1, "name": [2, n], "f": 0, "d": 0})
         cases.append({"k": 2, "long": [2, "foo"], "short": [0], "al": [n], "f": 0})
         cases.append({"k": 2, "long": [2, n], "short": [2, "x"], "al": ["bar", "-b"], "f": 0})
+    wn = wide_names()
+    for n in wn:
+        cases.append({"k": 0, "long": [2, n], "short": [0], "f": 0, "d": 0})
+        cases.append({"k": 0, "long": [2, "--" + n], "short": [0], "f": 0, "d": 0})
+        cases.append({"k": 0, "long": [2, "foo"], "short": [2, n], "f": 0, "d": 0})
+        cases.append({"k": 1, "name": [2, n], "f": 0, "d": 0})
+        cases.append({"k": 2, "long": [2, "foo"], "short": [0], "al": [n], "f": 0})
+        cases.append({"k": 2, "long": [2, "foo"], "short": [0], "al": ["--" + n], "f": 0})
     for odd in ([0], [1]):
         cases.append({"k": 0, "long": odd, "short": [0], "f": 0, "d": 0})
         cases.append({"k": 0, "long": [2, "foo"], "short": odd, "f": 2, "d": 0})
@@ -67,25 +135,54 @@ def gen(rng, tier, info):
     for f in range(8):
         cases.append({"k": 2, "long": [2, "foo"], "short": [2, "f"], "al": ["--bar", "b", "-c", "baz"], "f": f})
         cases.append({"k": 2, "long": [2, "foo"], "short": [0], "al": [], "f": f})
-    vals = [None, True, False, 0, 1, -1, 2, 10, 255, 10 ** 20, -10 ** 20] + BOUNDARY
+    vals = [None, True, False, 0, 1, -1, 2, 10, 255, 10 ** 20, -10 ** 20] + BOUNDARY + INT_VALUES + FLOAT_VALUES
+    if tier == "thorough":
+        vals += BOUNDARY_THOROUGH + INT_VALUES_THOROUGH
     nr = {"quick": 1500, "thorough": 20000, "search": 1500}[tier]
     for _ in range(nr):
         r = rng.random()
         if r < 0.3:
             z = rng.randint(-10 ** rng.randint(1, 30), 10 ** rng.randint(1, 30))
             vals.append(rng.choice([z, str(z), " %d " % z, "%+d" % z]))
-        elif r < 0.6:
+        elif r < 0.55:
             x = rng.uniform(-1, 1) * 10 ** rng.randint(-30, 30)
-            vals.append(rng.choice([repr(x), str(x).upper(), " %r" % x, "%e" % x, "%.3f" % x]))
+            vals.append(rng.choice([repr(x), str(x).upper(), " %r" % x, "%e" % x, "%.3f" % x, x]))
+        elif r < 0.65:
+            # digits of several scripts mixed, with the odd underscore, sign and dot
+            zeros = [48, 48, 0x660, 0xff10, 0x966, 0x1d7d8]
+            vals.append("".join(rng.choice("+-._e") if rng.random() < 0.15 else chr(rng.choice(zeros) + rng.randint(0, 9))
+                                for _ in range(rng.randint(1, 7))))
         else:
             vals.append("".join(rng.choice("0123456789+-._eE nifa\t") for _ in range(rng.randint(1, 7))))
     for v in vals:
         for t in range(4):
-            for nl in (0, 1):
+            if isinstance(v, float) and t == 2 and v == v and v not in (float("inf"), float("-inf")):
+                continue        # int(finite float): truncation, outside the model (ASSUMPTIONS)
+            for nl in ((0, 1) if (tier == "thorough" or not _huge(v)) else (t % 2,)):
                 cases.append({"k": 3, "t": t, "nl": nl, "v": enc_val(v)})
+    # value -> text -> value
+    rt = [True, False, 0, 1, -1, 7, 10 ** 20, -10 ** 20] + INT_VALUES + FLOAT_VALUES + (INT_VALUES_THOROUGH if tier == "thorough" else [])
+    for _ in range({"quick": 3, "thorough": 40, "search": 1}[tier]):
+        rt.append(rng.choice([-1, 1]) * rng.randint(10 ** 4200, 10 ** 4310))
+    for _ in range(nr // 3):
+        r = rng.random()
+        if r < 0.3:
+            rt.append(rng.randint(-10 ** rng.randint(1, 60), 10 ** rng.randint(1, 60)))
+        elif r < 0.5:
+            rt.append(rng.choice([-1, 1]) * rng.randint(10 ** 300, 10 ** 320))
+        else:
+            x = rng.uniform(-1, 1) * 10 ** rng.randint(-320, 308)
+            rt.append(x)
+    for i, v in enumerate(rt):
+        for nl in ((0, 1) if (tier == "thorough" or not _huge(v)) else (i % 2,)):
+            cases.append({"k": 4, "nl": nl, "v": enc_val(v)})
+    hi = {"quick": 0x20000, "thorough": 0x110000, "search": 0x800}[tier]
+    for lo in range(0, hi, 0x4000):
+        cases.append({"k": 5, "lo": lo, "hi": min(hi, lo + 0x4000)})
     info["exhaustive"] = True
-    info["distribution"] = {"option_flag_cases": 2 ** 13 * 6, "argument_flag_cases": 2 ** 11 * 3, "names": len(nm),
-                            "conversion_values": len(vals), "total": len(cases)}
+    info["distribution"] = {"option_flag_cases": 2 ** 13 * 2 * nd, "argument_flag_cases": 2 ** 11 * nd, "defaults": [repr(d) for d in DEFAULTS],
+                            "names": len(nm), "wide_names": len(wn), "conversion_values": len(vals), "round_trip_values": len(rt),
+                            "digit_table_range": hi, "total": len(cases)}
     return cases
 
 
@@ -95,46 +192,71 @@ def _name(w):
 
 def wire(c):
     if c["k"] == 0:
-        return [0, _name(c["long"]), _name(c["short"]), c["f"], c["d"]]
+        return [0, _name(c["long"]), _name(c["short"]), c["f"], enc_d(DEFAULTS[c["d"]])]
     if c["k"] == 1:
-        return [1, _name(c["name"]), c["f"], c["d"]]
+        return [1, _name(c["name"]), c["f"], enc_d(DEFAULTS[c["d"]])]
     if c["k"] == 2:
         return [2, _name(c["long"]), _name(c["short"]), [S(a) for a in c["al"]], c["f"]]
+    if c["k"] == 4:
+        return [4, _vtype(c["v"]), c["nl"], c["v"]]
+    if c["k"] == 5:
+        return [5, c["lo"], c["hi"]]
     return [3, c["t"], c["nl"], c["v"]]
 
 
+def _vtype(w):
+    """the declared type a value converts back by: bool -> BOOLEAN, int -> INTEGER, float -> FLOAT"""
+    return {1: 1, 2: 2, 4: 3}[w[0]]
+
+
 def describe(c):
-    return repr(c)
+    r = repr(c)
+    return r if len(r) < 400 else r[:300] + " ... (%d characters)" % len(r)
 
 
 def _pyname(w):
     return None if w[0] == 0 else (5 if w[0] == 1 else w[1])
 
 
-def _dk(v):
-    return 0 if v is None else (2 if isinstance(v, list) else 1)
-
-
-DEFAULTS = [None, "x", ["x"]]
-
-
 def run_impl(c):
+    sys.set_int_max_str_digits(INT_MAX_STR_DIGITS)
+    try:
+        return _run_impl(c)
+    finally:
+        sys.set_int_max_str_digits(0)
+
+
+def _run_impl(c):
     from clikit.api.args.format import Option, Argument, CommandOption
     try:
         if c["k"] == 0:
             o = Option(_pyname(c["long"]), _pyname(c["short"]), c["f"], None, DEFAULTS[c["d"]])
-            return [0, [S(o.long_name), [] if o.short_name is None else [S(o.short_name)], o.flags, _dk(o.default),
+            return [0, [S(o.long_name), [] if o.short_name is None else [S(o.short_name)], o.flags, enc_d(o.default),
                         [int(o.accepts_value()), int(o.is_value_required()), int(o.is_value_optional()), int(o.is_multi_valued()),
                          int(o.is_long_name_preferred()), int(o.is_short_name_preferred())]]]
         if c["k"] == 1:
             a = Argument(_pyname(c["name"]), c["f"], None, DEFAULTS[c["d"]])
-            return [0, [S(a.name), a.flags, _dk(a.default), [int(a.is_required()), int(a.is_optional()), int(a.is_multi_valued())]]]
+            return [0, [S(a.name), a.flags, enc_d(a.default), [int(a.is_required()), int(a.is_optional()), int(a.is_multi_valued())]]]
         if c["k"] == 2:
             o = CommandOption(_pyname(c["long"]), _pyname(c["short"]), list(c["al"]), c["f"])
             return [0, [S(o.long_name), [] if o.short_name is None else [S(o.short_name)], o.flags,
                         [S(x) for x in o.long_aliases], [S(x) for x in o.short_aliases]]]
-        from hutil import dec_val
+        from hutil import dec_val          # (enc_val / dec_val move ints as ints: no int <-> str conversion of their own)
+        if c["k"] == 5:
+            out = []
+            for x in range(c["lo"], c["hi"]):
+                try:
+                    out.append([x, int(chr(x))])
+                except ValueError:
+                    pass
+            return [0, out]
         v = dec_val(c["v"])
+        if c["k"] == 4:
+            nlf = Option.NULLABLE if c["nl"] else 0
+            txt = Option("opt", None, Option.STRING | nlf | Option.REQUIRED_VALUE).parse(v)
+            typ = [Option.STRING, Option.BOOLEAN, Option.INTEGER, Option.FLOAT][_vtype(c["v"])]
+            back = Option("opt", None, typ | nlf | Option.REQUIRED_VALUE).parse(txt)
+            return [0, [enc_val(txt), enc_val(back)]]
         flags = [Option.STRING, Option.BOOLEAN, Option.INTEGER, Option.FLOAT][c["t"]] | (Option.NULLABLE if c["nl"] else 0)
         o = Option("opt", None, flags | Option.REQUIRED_VALUE)
         r1 = o.parse(v)
@@ -148,15 +270,30 @@ def run_impl(c):
 
 
 def canon_impl(c, o):
-    return canon_floats(o) if c["k"] == 3 else o
+    return canon_floats(o) if c["k"] in (3, 4) else o
 
 
 def canon_model(c, o):
-    return canon_floats(o) if c["k"] == 3 else o
+    return canon_floats(o) if c["k"] in (3, 4) else o
 
 
 def _bit(f, k):
     return bool(f & (1 << k))
+
+
+def _given(c):
+    """the default handed to the constructor: (is given at all, is a list, its wire form)"""
+    d = DEFAULTS[c["d"]]
+    return d is not None, isinstance(d, list), enc_d(d)
+
+
+def _fval(w):
+    """wire float -> float"""
+    return float(unS(w[1]))
+
+
+def _same_float(a, b):
+    return repr(a) == repr(b)        # nan == nan, -0.0 != 0.0
 
 
 def oracle(c, o):
@@ -167,12 +304,15 @@ def oracle(c, o):
         return "wrong-exception:%d" % o[1]
     ok = o[0] == 0
     if c["k"] == 0 and c["long"] == [2, "foo"] and c["short"] in ([0], [2, "f"]):
-        f, has_short, d = c["f"], c["short"] != [0], c["d"]
+        f, has_short = c["f"], c["short"] != [0]
+        given, is_list, dw = _given(c)
         ntypes = sum(_bit(f, k) for k in (7, 8, 9, 10))
         contradiction = ((_bit(f, 2) and (_bit(f, 3) or _bit(f, 4) or _bit(f, 5))) or (_bit(f, 4) and _bit(f, 5)) or ntypes > 1
                          or (_bit(f, 0) and _bit(f, 1)) or (_bit(f, 1) and not has_short))
         valueless = _bit(f, 2) or not (_bit(f, 3) or _bit(f, 4) or _bit(f, 5))
-        bad_default = (valueless and d != 0) or (_bit(f, 5) and d == 1)
+        # a default that is not None - '' 0 False [] included - is a default: a value-less option has none, a multi-valued
+        # one takes lists only
+        bad_default = (valueless and given) or (_bit(f, 5) and given and not is_list)
         exp_ok = not contradiction and not bad_default
         if ok != exp_ok:
             return "option-accept-iff"
@@ -183,16 +323,21 @@ def oracle(c, o):
                 return "option-one-type"
             if lp + sp != 1:
                 return "option-one-preference"
-            if (not acc) and (req or opt or multi or o[1][3] != 0):
+            kept = o[1][3]
+            if (not acc) and (req or opt or multi or kept != [0]):
                 return "option-valueless-consistency"
-            if multi and (not req or o[1][3] != 2):
+            if multi and (not req or kept[0] != 5):
                 return "option-multi-consistency"
-            if g & f != f or (g ^ f) & ~((1 << 12) - 1 | 0) & ((1 << 6) | (1 << 12)):
+            if kept != (dw if given else ([5, []] if multi else [0])):
+                return "option-default-value-not-kept"
+            if g & f != f or (g ^ f) & ((1 << 6) | (1 << 12)):
                 return "option-normalisation-changes-bits"
     if c["k"] == 1 and c["name"] == [2, "arg"]:
-        f, d = c["f"], c["d"]
+        f = c["f"]
+        given, is_list, dw = _given(c)
         ntypes = sum(_bit(f, k) for k in (4, 5, 6, 7))
-        exp_ok = not (_bit(f, 0) and _bit(f, 1)) and ntypes <= 1 and not (_bit(f, 0) and d != 0) and not (_bit(f, 2) and d == 1)
+        exp_ok = (not (_bit(f, 0) and _bit(f, 1)) and ntypes <= 1 and not (_bit(f, 0) and given)
+                  and not (_bit(f, 2) and given and not is_list))
         if ok != exp_ok:
             return "argument-accept-iff"
         if ok:
@@ -200,10 +345,13 @@ def oracle(c, o):
             req, opt, multi = o[1][3]
             if sum(_bit(g, k) for k in (4, 5, 6, 7)) != 1:
                 return "argument-one-type"
-            if req + opt != 1 or (req and o[1][2] != (2 if multi else 0)):
+            kept = o[1][2]
+            if req + opt != 1 or (req and kept != ([5, []] if multi else [0])):
                 return "argument-required-consistency"
-            if multi and o[1][2] != 2:
+            if multi and kept[0] != 5:
                 return "argument-multi-default"
+            if kept != (dw if given else ([5, []] if multi else [0])):
+                return "argument-default-value-not-kept"
     wf_long = lambda s: len(s) >= 2 and s[0].isascii() and s[0].isalpha() and all(ch.isascii() and (ch.isalnum() or ch == "-") for ch in s)
     wf_short = lambda s: len(s) == 1 and s.isascii() and s.isalpha()
     if c["k"] == 0 and c["short"] == [0] and c["f"] == 0 and c["d"] == 0 and c["long"][0] == 2:
@@ -245,6 +393,34 @@ def oracle(c, o):
                     return "int-text-roundtrip"
             except ValueError:
                 pass
+        if c["t"] == 1 and src[0] == 3 and unS(src[1]) in ("true", "false") and v != [1, int(unS(src[1]) == "true")]:
+            return "boolean-text-roundtrip"
+        if c["t"] == 3 and src[0] == 4 and not _same_float(_fval(v), _fval(src)):
+            return "float-value-changed"
+    if c["k"] == 4:
+        # the text form of every boolean, int and float converts back to that value
+        src = c["v"]
+        too_long = src[0] == 2 and abs(src[1]) >= 10 ** 4300      # CPython refuses str(int) beyond 4300 digits (ASSUMPTIONS)
+        if too_long:
+            if ok:
+                return "int-beyond-the-interpreter-limit-converted"
+            return None
+        if not ok:
+            return "roundtrip-raises:%d" % o[1]
+        txt, back = o[1]
+        if txt[0] != 3:
+            return "text-form-is-not-a-string"
+        if src[0] == 1 and (back != src or unS(txt[1]) != ("true" if src[1] else "false")):
+            return "boolean-roundtrip"
+        if src[0] == 2 and (back != src or unS(txt[1]) != str(src[1])):
+            return "int-roundtrip"
+        if src[0] == 4 and (back[0] != 4 or not _same_float(_fval(back), _fval(src))):
+            return "float-roundtrip"
+    if c["k"] == 5 and ok:
+        import unicodedata
+        exp = [[x, unicodedata.decimal(chr(x))] for x in range(c["lo"], c["hi"]) if unicodedata.decimal(chr(x), None) is not None]
+        if o[1] != exp:
+            return "decimal-digit-table"
     return None
 
 
